@@ -341,6 +341,9 @@ func (s *ServerDnsListener) testDownstreamFragmentSize(v *commands.TestDownstrea
 	u, err := s.validateAndGetUser(v.UserId, remoteAddr)
 	if err != nil {
 		resp.Err = err
+	} else if v.FragmentSize > MaxProbeFragmentSize {
+		// The size is chosen by the client: never allocate more than a DNS message can carry
+		resp.Err = commands.BadFrag
 	} else {
 		resp.Data = make([]byte, v.FragmentSize)
 		v := byte(107)
